@@ -148,14 +148,15 @@ theorem CInv.popTake {s : St U π} (hb : Base E s) {nt : UNT U} (hc : CInv E ran
     obtain ⟨kids, h1, h2, h3⟩ := hc.initial F v w hm
     exact ⟨kids, h1, h2, fun j aj sj a b => hst _ _ _ (h3 j aj sj a b)⟩
   · intro p hp
-    rcases hc.cover p hp with hh | hpp
+    rcases hc.cover p hp with hh | hpp | hrej
     · have := hperm.subset hh
       rcases List.mem_cons.mp this with rfl | hm
-      · exact Or.inr hpe
+      · exact Or.inr (Or.inl hpe)
       · left
         rw [popTake_heapProgs, if_pos rfl]
         exact hm
-    · exact Or.inr (hpp.mono hst)
+    · exact Or.inr (Or.inl (hpp.mono hst))
+    · exact Or.inr (Or.inr hrej)
   · intro F args v hp hk j aj sj haj hsj hr hex
     have hne : sj ≠ nt := by intro e'; subst e'; exact Nat.lt_irrefl _ hr
     by_cases heq : e.2 = Tree.node F args
@@ -164,10 +165,13 @@ theorem CInv.popTake {s : St U π} (hb : Base E s) {nt : UNT U} (hc : CInv E ran
       have h2 := hi F args heq
       have h3 : j < args.length := (List.getElem?_eq_some_iff.mp haj).1
       omega
-    · have hp0 : Popped s nt (Tree.node F args) := by
-        rcases hpop' _ hp with h1 | h1
-        · exact absurd h1.symm heq
-        · exact h1
+    · have hp0 : Proc s nt (Tree.node F args) := by
+        refine ⟨hp.1, fun hin => ?_⟩
+        rcases List.mem_cons.mp (hperm.subset hin) with h1 | h1
+        · exact heq h1.symm
+        · apply hp.2
+          rw [popTake_heapProgs, if_pos rfl]
+          exact h1
       rcases hc.succs F args v hp0 hk j aj sj haj hsj hr (by intro e'; cases e') with ⟨q, h1, h2⟩ | ⟨h1, h2, h3⟩
       · exact Or.inl ⟨q, by rw [hsucc sj hne]; exact h1, h2⟩
       · exact Or.inr ⟨h1, by rw [hheapo sj hne]; exact h2, by rw [hsucc sj hne]; exact h3⟩
@@ -337,13 +341,17 @@ theorem NTInv.pushStep (H : OHyp E rank Good) {s1 s3 : St U π} (hb : Base E s1)
             exact ⟨kids, (hseen3 _).mpr (Or.inl h1), h2, fun j aj sj a b => by rw [hsucc3]; exact h3 j aj sj a b⟩
           · intro p hp'
             rcases (hseen3 p).mp hp' with hold | rfl
-            · rcases hc.cover p hold with h1 | h1
+            · rcases hc.cover p hold with h1 | h1 | h1
               · exact Or.inl (hheapsub p h1)
-              · exact Or.inr ((hPop3 nt p).mpr h1)
+              · exact Or.inr (Or.inl ((hPop3 nt p).mpr h1))
+              · exact Or.inr (Or.inr h1)
             · exact Or.inl hheapnew
-          · intro F' args' v' hp' hk' j aj sj haj hsj hrk hex
-            rw [hPop3] at hp'
-            have hold : Tree.node F' args' ∈ s1.seenOf nt := hp'.seen hb.sinv
+          · intro F' args' v' hp'3 hk' j aj sj haj hsj hrk hex
+            have hold : Tree.node F' args' ∈ s1.seenOf nt := by
+              rcases (hseen3 _).mp hp'3.1 with h1 | h1
+              · exact h1
+              · exact absurd (h1 ▸ hheapnew) hp'3.2
+            have hp' : Proc s1 nt (Tree.node F' args') := ⟨hold, fun hin => hp'3.2 (hheapsub _ hin)⟩
             rw [hkeys3, AList.lookup_insert, if_neg (by intro e; cases e; exact hnew' hold)] at hk'
             have hnej : sj ≠ nt := by intro e'; subst e'; exact Nat.lt_irrefl _ hrk
             have hlift : SuccDone s1 nt F' args' j aj sj →
